@@ -181,7 +181,13 @@ def main(run):
                         run.violation(f'handle|{kind}|{m}|{vn}', f'{PRE + m}({vn}): {msg} — a later accessor would slice outside the authority / panic')
     # path handle (D1/D2): every path of push / pop / clear / normalize keeps the window and never indexes outside it
     from . import c10
+    from .. import pathclosure, pathmut
     c10.handle_paths(run, P, 'C04')
+    ok, ncalls = pathmut.make_root_guarded(P)
+    if not ok:
+        run.violation('make_root|guard', 'PathMutImpl::make_root is called without the needs_root() guard under which it is verified')
+    pst = pathclosure.check(run, None, P, ctx, ['uri::Uri', 'uri::reference::UriRef', 'iri::Iri', 'iri::reference::IriRef'], ['uri::path::Path', 'iri::path::Path'])
+    run.floor('path_closure_checks', 150, 'path-handle paths whose result language was checked')
     run.floor('sites_total', 300, 'unsafe sites enumerated')
     run.floor('closure_checks', 70, 'feasible setter paths whose result language was checked')
     return run.finish('model_checking', {
